@@ -481,3 +481,87 @@ theorem normAt_idem (T : Table) (ty : Option Str) (a : Str) (v : J) : normAt T t
     | some p => simp only [C04_normV_idem]
 
 end Mappy.Printer
+
+namespace Mappy.Printer
+
+/-! ### the normal form is reached after one reload, for whole documents -/
+
+theorem normE_scalar_idem (T : Table) (ty : Option Str) (a : Str) (v : J) (hl : ∀ xs, v ≠ .list xs) (hd : ∀ g, v ≠ .dict g) :
+    normE T ty a (normE T ty a v) = normE T ty a v := by
+  rw [normE_scalar T ty a v hl hd]
+  by_cases hc : (isMetaKey a || isDataKey a) = true
+  · simp only [hc, if_true, normE_scalar T ty a v hl hd]
+  · simp only [hc, if_false, Bool.false_eq_true]
+    have hs := normAt_scalar T ty a v hl hd
+    rw [normE_scalar T ty a _ hs.1 hs.2]
+    simp only [hc, if_false, Bool.false_eq_true, normAt_idem]
+
+mutual
+theorem normJ_idem (T : Table) : (j : J) → normJ T (normJ T j) = normJ T j
+  | .dict f => by simp only [normJ, typeOf_normF, normF_idem T f (typeOf f)]
+  | .null | .bool _ | .int _ | .flt _ | .str _ | .list _ | .tup _ => by simp only [normJ]
+theorem normF_idem (T : Table) : (f : Fields) → ∀ ty, normF T ty (normF T ty f) = normF T ty f
+  | [], _ => by simp only [normF]
+  | (a, .list xs) :: r, ty => by
+    have ihr := normF_idem T r ty
+    have ihx := normL_idem T xs
+    by_cases hm : isMetaKey a = true
+    · simp [normF, normE, hm, ihr]
+    · by_cases ho : a ∈ Gen.objectListKeys <;> simp [normF, normE, hm, ho, ihr, ihx]
+  | (a, .dict g) :: r, ty => by
+    have ihr := normF_idem T r ty
+    have ihg := normF_idem T g (typeOf g)
+    by_cases hc : (isMetaKey a || isDataKey a || !hasKey s%"__type__" g) = true
+    · simp [normF, normE, hc, ihr]
+    · have hc' : (isMetaKey a || isDataKey a || !hasKey s%"__type__" (normF T (typeOf g) g)) = false := by
+        rw [hasKey_type_normF]; simpa using hc
+      simp [normF, normE, hc, hc', ihr, ihg, typeOf_normF]
+  | (a, .null) :: r, ty | (a, .bool _) :: r, ty | (a, .int _) :: r, ty
+  | (a, .flt _) :: r, ty | (a, .str _) :: r, ty | (a, .tup _) :: r, ty => by
+    simp only [normF, normF_idem T r ty]
+    rw [normE_scalar_idem T ty a _ (by intro xs; simp) (by intro g; simp)]
+theorem normL_idem (T : Table) : (xs : List J) → normL T (normL T xs) = normL T xs
+  | [] => by simp only [normL]
+  | x :: r => by simp only [normL, normJ_idem T x, normL_idem T r]
+end
+
+theorem normRoot_idem (T : Table) (x : J) : normRoot T (normRoot T x) = normRoot T x := by
+  cases x with
+  | dict f =>
+    cases hty : lookup s%"__type__" f with
+    | none => simp [normRoot, hty]
+    | some t =>
+      cases t with
+      | str t =>
+        by_cases hk : (t = s%"metadata" || t = s%"validation" || t = s%"connectionoptions") = true
+        · have hk' : (t = s%"metadata" ∨ t = s%"validation") ∨ t = s%"connectionoptions" := by simpa using hk
+          simp [normRoot, hty, hk']
+        · have hk' : ¬((t = s%"metadata" ∨ t = s%"validation") ∨ t = s%"connectionoptions") := by simpa using hk
+          have h1 : normRoot T (.dict f) = normJ T (.dict f) := by simp [normRoot, hty, hk']
+          have h2 : normRoot T (normJ T (.dict f)) = normJ T (normJ T (.dict f)) := by
+            simp [normJ, normRoot, lookup_normF T _ _ isMeta_type f, hty, hk']
+          rw [h1, h2, normJ_idem]
+      | null | bool _ | int _ | flt _ | list _ | tup _ | dict _ => simp [normRoot, hty]
+  | null | bool _ | int _ | flt _ | str _ | list _ | tup _ => simp [normRoot]
+
+/-- **C04_reload_idem** — the dictionary a reload gives back is a fixed point of reloading: for EVERY dictionary or list of
+roots, `normDoc (normDoc d) = normDoc d` (with the `reload` correspondence: `loads(dumps(loads(dumps d))) = loads(dumps d)`,
+i.e. `loads(t) = loads(dumps(loads(t)))` for every written text `t`) -/
+theorem C04_reload_idem (T : Table) (c : J) : normDoc T (normDoc T c) = normDoc T c := by
+  cases c with
+  | dict f =>
+    have h : ∃ g, normRoot T (.dict f) = .dict g := by
+      simp only [normRoot]
+      split
+      · split
+        · exact ⟨_, rfl⟩
+        · exact ⟨normF T (typeOf f) f, by simp only [normJ]⟩
+      · exact ⟨_, rfl⟩
+    obtain ⟨g, hg⟩ := h
+    have := normRoot_idem T (.dict f)
+    simp only [normDoc, hg] at this ⊢
+    exact this
+  | list xs => simp [normDoc, List.map_map, Function.comp_def, normRoot_idem]
+  | null | bool _ | int _ | flt _ | str _ | tup _ => simp [normDoc]
+
+end Mappy.Printer
